@@ -1121,6 +1121,14 @@ func (tr *FnCtx) instr(st *State, in ssa.Instruction, b *ssa.BasicBlock, idx int
 			if sst.Dir == types.SendOnly {
 				tr.sendAnchor(st, sst.Chan)
 			}
+			if sst.Dir == types.RecvOnly {
+				// anchor "recv <field>#k": a receive case on a channel held in a struct field. The ghost update is applied at
+				// the select itself, i.e. on every branch (an over-approximation: "a value may have been received")
+				if name := fieldFuncName(sst.Chan); name != "" {
+					tr.callCount["recv:"+name]++
+					tr.runAts(st, fmt.Sprintf("recv %s#%d", name, tr.callCount["recv:"+name]), nil)
+				}
+			}
 		}
 	default:
 		tr.note(fmt.Sprintf("unsupported instruction %T: result unconstrained", in))
